@@ -40,9 +40,9 @@ C2(s, he)      == [tag |-> "for-kv", n |-> s[2],
 C3(s, c, he)   == [tag |-> "for-if", n |-> s[2],
                    body |-> <<Text("["), ForS("", "v", s[1], c[1], <<P(NameE("v")), Sep(",")>>, IF he THEN <<Text("E")>> ELSE <<>>, he), Text("]")>>]
 C4(s1, s2)     == [tag |-> "for-for", n |-> s1[2],
-                   body |-> <<ForS("", "a", s1[1], NoE,
+                   body |-> <<ForS("empty", "x", s1[1], NoE,       \* key and value carry the names of context variables
                                <<ForS("", "b", s2[1], NoE,
-                                   <<P(NameE("a")), P(NameE("b")), Sep("/"), P(L("index")), Sep("/"),
+                                   <<P(NameE("x")), P(NameE("b")), P(NameE("empty")), Sep("/"), P(L("index")), Sep("/"),
                                      P(AttrDot(L("parent"), "index")), Sep("/"), P(AttrDot(L("parent"), "length")), Sep(";")>>,
                                    <<Text("e")>>, TRUE),
                                  P(L("index")), Sep("|")>>, <<Text("E")>>, TRUE)>>]
@@ -78,10 +78,10 @@ CNest(b1, b2, s) == [tag |-> "if-for", n |-> s[2],
                                     <<ForS("", "v", s[1], NoE, <<P(NameE("v"))>>, <<Text("E")>>, TRUE)>>, TRUE)>>]
 (* depth 3-4 (thorough): loops in loops in conditionals *)
 CDeep(s1, s2, b) == [tag |-> "deep", n |-> s1[2],
-                     body |-> <<ForS("", "a", s1[1], NoE,
+                     body |-> <<ForS("", "x", s1[1], NoE,
                                  <<IfS(IF b THEN L("first") ELSE Un("not", L("first")),
                                        <<ForS("j", "b", s2[1], NoE,
-                                            <<IfS(L("last"), <<P(NameE("b")), Text("!")>>, <<P(NameE("j")), Text("?")>>, TRUE),
+                                            <<IfS(L("last"), <<P(NameE("b")), P(NameE("x")), Text("!")>>, <<P(NameE("j")), Text("?")>>, TRUE),
                                               P(AttrDot(L("parent"), "revindex"))>>, <<Text("e")>>, TRUE)>>,
                                        <<Text("-")>>, TRUE)>>, <<Text("E")>>, TRUE)>>]
 
